@@ -45,7 +45,9 @@ where
     pub const fn new(modulus: Odd<Uint<LIMBS>>) -> Self {
         // `R mod modulus` where `R = 2^BITS`.
         // Represents 1 in Montgomery form.
-        let one = Uint::MAX.rem(modulus.as_nz_ref()).wrapping_add(&Uint::ONE);
+        let one = Uint::MAX
+            .rem(modulus.as_nz_ref())
+            .add_mod(&Uint::ONE, modulus.as_ref());
 
         // `R^2 mod modulus`, used to convert integers to Montgomery form.
         let r2 = one
@@ -87,7 +89,7 @@ impl<const LIMBS: usize> MontyParams<LIMBS> {
         // Represents 1 in Montgomery form.
         let one = Uint::MAX
             .rem_vartime(modulus.as_nz_ref())
-            .wrapping_add(&Uint::ONE);
+            .add_mod(&Uint::ONE, modulus.as_ref());
 
         // `R^2 mod modulus`, used to convert integers to Montgomery form.
         let r2 = Uint::rem_wide_vartime(one.square_wide(), modulus.as_nz_ref());
